@@ -373,7 +373,17 @@ def _r1(ctx):
     ctx.saw(FILE, "TemplateLoader._assign_rates")
     _guard_builders(ctx, pkg, fn)
     # small loop-free helpers of the class (self._x(..)) are read as the expressions they return
-    fl = Flow(fn, FILE, resolver=lambda name: pkg.resolve("TemplateLoader", name)[1])
+    # (a list of statement RECORDS built first and turned into text by a method of the record -- `[s.code() for s in stmts]` -- is read as the
+    # one comprehension it is: the two comprehensions fused, the record's fields bound, its method's value in place)
+    import copy as _copy
+    from ..normalize import fuse_comprehensions
+    from ..ratemodel import model as _ratemodel
+    _rm = _ratemodel(ctx.tree)
+    if any(isinstance(c_, ast.Call) and isinstance(c_.func, ast.Name) and c_.func.id in _rm.dataclass_types(FILE) for c_ in ast.walk(fn)):
+        fn = fuse_comprehensions(_copy.deepcopy(fn))
+        fl = Flow(fn, FILE, resolver=lambda name: pkg.resolve("TemplateLoader", name)[1], consts=_rm.dataclass_types(FILE), func_resolver=_rm.func_resolver(FILE))
+    else:
+        fl = Flow(fn, FILE, resolver=lambda name: pkg.resolve("TemplateLoader", name)[1])
     W = (FILE, fn.lineno)
     rets = [f for f in fl.facts if f.kind == "return"]
     if len(rets) != 1:
